@@ -170,6 +170,7 @@ def jobs(tier, seed):
     js.append(dict(kind='e2e', name='sitemap'))
     js.append(dict(kind='e2e', name='ftplink'))
     js.append(dict(kind='e2e', name='ftplink+follow'))
+    js.append(dict(kind='e2e', name='ftplink+start'))
     if seed:
         k = seed % len(js)
         js = js[k:] + js[:k]
@@ -431,7 +432,15 @@ def run_ftp_link_e2e(follow_ftp):
     peer = ComboPeer(site, script)
     argv = ['http://a.test/dir/index.html', '-r', '--no-robots', '--delete-after',
             '--waitretry', '0', '--tries', '1', '--timeout', '5']
-    if follow_ftp:
+    start_mode = follow_ftp == 'start'
+    if start_mode:
+        # FTP URLs given on the command line (links are already judged when they are
+        # scraped; for a start URL the only gate is the one before the fetch): one on an
+        # excluded host, one in scope
+        argv = argv[:1] + ['ftp://f.test/pub/file.txt', 'ftp://a.test/pub/own.txt',
+                           '--exclude-hostnames', 'f.test'] + argv[1:]
+        follow_ftp = True
+    elif follow_ftp:
         argv.append('--follow-ftp')
     out = AppRun(site, argv, Chooser(), early=False, peer=peer).run()
     obs = [list(x) for x in peer.ftp_connections] + \
@@ -509,7 +518,7 @@ def run_e2e(name, chooser):
     if name == 'sitemap':
         return run_sitemap_e2e()
     if name.startswith('ftplink'):
-        return run_ftp_link_e2e(name.endswith('+follow'))
+        return run_ftp_link_e2e('start' if name.endswith('+start') else name.endswith('+follow'))
     robots = name.endswith('+robots')
     argv_o, ro, code, strong = E2E[name.split('+')[0]]
     site = _site(code)
